@@ -433,6 +433,15 @@ def run(ctx):
                 "left nothing",
     })
     ctx.add_sample([e for e in trace if e.get("ev") == "announce"][:2])
+    if not ctx.quick():
+        # extension (never a verdict): TLS certificate handling of the HTTP and WebTorrent trackers
+        import ext_tls
+        try:
+            ext = ext_tls.run(ctx)
+        except ToolError as e:
+            ext = {"error": str(e)[:300]}
+        ctx.coverage.setdefault("extensions", {})["TlsReload"] = ext
+        log("EXTENSION TlsReload (not a verdict on C17): %s" % json.dumps(ext)[:700])
     ctx.assumptions += [
         "operations are issued one at a time (settle window 120 ms); the in-flight-announce vs. close race is "
         "explored on the model (WsServer.tla) only",
